@@ -1116,7 +1116,7 @@ func (s *wsim) phaseTruncation(quick bool) {
 	}
 	smallLimit, window, samples, maxBound := 3000, 400, 150, 120
 	if !quick {
-		smallLimit, window, samples, maxBound = 12000, 5000, 800, 1500
+		smallLimit, window, samples, maxBound = 12000, 4000, 600, 1000
 	}
 	exhaustive := L <= smallLimit
 	if exhaustive {
@@ -1506,6 +1506,9 @@ func (s *wsim) run() {
 	nops := 10 + c.Intn(70)
 	if !quick {
 		nops = 20 + c.Intn(300)
+		if s.maxSize > 4096 && nops > 120 {
+			nops = 120 // 64 KiB records x hundreds of ops x thousands of truncation points cost tens of CPU-minutes per run
+		}
 	}
 	if s.tiny {
 		nops = 6 + c.Intn(34)
